@@ -2559,6 +2559,11 @@ impl World {
         let (ls, us) = (base.array_start_for(pos0.tick_lower_index), base.array_start_for(pos0.tick_upper_index));
         base.ensure_array(ls);
         base.ensure_array(us);
+        // the `repo` follow-up asks for a DIFFERENT range (upper bound one spacing further), with its arrays in place: only
+        // the lock stands between the owner and the re-ranging
+        let (repo_lo, repo_hi) = repo_range(pos0.tick_lower_index, pos0.tick_upper_index, base.wp().tick_spacing);
+        let repo_us = base.array_start_for(repo_hi);
+        base.ensure_array(repo_us);
         let funds = u64::MAX / 4;
         let mut fx = Fx::from_world(&base, None, None, false, false, funds);
         let t22 = anchor_spl::token_2022::ID;
@@ -2721,12 +2726,12 @@ impl World {
                     existing_tick_array_lower: ta_l,
                     existing_tick_array_upper: ta_u,
                     new_tick_array_lower: ta_l,
-                    new_tick_array_upper: ta_u,
+                    new_tick_array_upper: crate::fixture::tick_array_pda(&fx.pool, repo_us),
                     system_program: crate::svm::system_id(),
                 };
                 let d = ::whirlpool::instruction::RepositionLiquidityV2 {
-                    new_tick_lower_index: pos0.tick_lower_index,
-                    new_tick_upper_index: pos0.tick_upper_index,
+                    new_tick_lower_index: repo_lo,
+                    new_tick_upper_index: repo_hi,
                     method: ::whirlpool::instructions::RepositionLiquidityMethod::ByLiquidity { new_liquidity_amount: 1, existing_range_token_min_a: 0, existing_range_token_min_b: 0, new_range_token_max_a: u64::MAX, new_range_token_max_b: u64::MAX },
                     remaining_accounts_info: None,
                 }
@@ -2811,6 +2816,13 @@ impl World {
                     if !(inc_ref_fails || cf_short) {
                         viols.push(format!("C18 `{}` on a locked position must be allowed but fails with {}", follow, name));
                     }
+                }
+                // the four instructions the lock exists to stop must be stopped BY THE LOCK (not by an accident of the
+                // accounts offered): the position is otherwise in order and its owner signs
+                // (reset_position_range tests emptiness first, and a locked position is never empty: its lock refusal
+                // cannot be observed)
+                if matches!(follow, "dec" | "close" | "repo") && name != "OperationNotAllowedOnLockedPosition" {
+                    viols.push(format!("C18 `{}` on a locked position is refused with {}, not with OperationNotAllowedOnLockedPosition", follow, name));
                 }
                 tags.push("lock_follow_rejected");
                 format!("ok {} rej", follow)
